@@ -25,7 +25,8 @@ EXPLANATION = (
     'dB2Linear(-calc_path_loss_dB), which_distance = which_distance_dB(-linear2dB), identical in the three bases; '
     'sector antenna pattern = gain_lin * dB2Linear(-min(12 (theta/theta3dB)^2, Am)). C13.d: wherever the inverse '
     'query is offered it is the algebraic inverse of the forward formula (term composition = identity) or raises '
-    'NotImplementedError. Not decided: monotonicity, Friis within 0.01 dB, values in (0,1].')
+    'NotImplementedError. Not decided: monotonicity, Friis within 0.01 dB, values in (0,1].'
+    ' General rules also applied here (see DESIGN 10.5): validate-before-commit (no `raise` reachable after the object was already changed in a public mutator); input immutability (no in-place modification of an array argument, alias- and view-aware).')
 
 PARAM_ATTRS = {'_n', '_C', '_fc', '_hbs', '_hms', '_area_type'}
 
